@@ -101,7 +101,7 @@ pub fn build_pass_0(
                     t: segment.t,
                     items: vec![],
                 });
-                pass0_internal(segment.clone(), &context, &parsed.macroses)?;
+                pass0_internal(segment.clone(), &context, &parsed.macroses, 0)?;
             }
         }
     }
@@ -109,10 +109,14 @@ pub fn build_pass_0(
     Ok(context.as_pass0_result())
 }
 
+/// Deepest nesting of macro calls inside macro bodies
+const MAX_MACRO_DEPTH: usize = 128;
+
 fn pass0_internal(
     segment: Segment,
     context: &Pass0Context,
     macroses: &HashMap<String, Vec<(CodePoint, String)>>,
+    depth: usize,
 ) -> Result<(), Error> {
     for (line, item) in segment.items.iter() {
         #[cfg(feature = "verif")]
@@ -120,6 +124,14 @@ fn pass0_internal(
         match item {
             Item::Instruction(name, ops) => match name {
                 Operation::Custom(macro_name) => {
+                    if depth >= MAX_MACRO_DEPTH {
+                        bail!(
+                            "macro calls nested deeper than {} levels (macro {} calls itself?), {}",
+                            MAX_MACRO_DEPTH,
+                            macro_name,
+                            line
+                        );
+                    }
                     let segments = macro_expand(line, macro_name, ops, context, macroses)?;
                     if !segments.is_empty() {
                         let current_segment = context.last_segment().unwrap().borrow().clone();
@@ -132,7 +144,7 @@ fn pass0_internal(
                                 items: vec![],
                             });
                         }
-                        pass0_internal(segments[0].clone(), context, macroses)?;
+                        pass0_internal(segments[0].clone(), context, macroses, depth + 1)?;
                         for segment in segments.iter().skip(1) {
                             if segment.t == SegmentType::Code {
                                 context.add_segment(Segment {
@@ -140,7 +152,7 @@ fn pass0_internal(
                                     t: segment.t,
                                     items: vec![],
                                 });
-                                pass0_internal(segment.clone(), context, macroses)?;
+                                pass0_internal(segment.clone(), context, macroses, depth + 1)?;
                             } else {
                                 context.add_segment(segment.clone());
                             }
